@@ -3,7 +3,8 @@
 //!
 //! common case fields:  <parser> <ty> <flags> <datahex> <events> <pre> <chunk> <ctor>
 //!   parser: cnf wcnf gcnf log aag aig btor2        ty: i8..isize (DIMACS) / u8..usize (AIGER) / -
-//!   flags : 'h' ignore_header, 'u' ignore_unknown_lines, '-' none
+//!   flags : 'h' ignore_header, 'u' ignore_unknown_lines, 'w' whole-file API (AIGER) / written lines (BTOR2),
+//!           'x' AIGER: whole-file API, then the value written back with the crate's writer(s), '-' none
 //!   ctor  : r from_read, b from_boxed_dyn_read, f from_buf_reader (pre bytes sit in the BufReader)
 use crate::common::*;
 use flussab::DeferredReader;
@@ -285,6 +286,19 @@ fn run_aag<L: flussab_aiger::Lit>(s: &Setup, t: &mut Trace, stats: &Rc<RefCell<S
         }
         return;
     }
+    if s.flags.contains('x') {
+        // whole-file API, then the crate's writer on the value: W:<hex of the bytes ascii::Writer::write_aig writes>
+        match p.parse() {
+            Ok(a) => {
+                t.items.push(show_aig(&a)); t.calls_at_item.push(stats.borrow().effective_calls);
+                t.items.push(format!("W:{}", hex(&write_to_vec(|w| { ascii::Writer::<L>::new(w).write_aig(&a); }))));
+                t.calls_at_item.push(stats.borrow().effective_calls);
+                t.fin = "ok".into();
+            }
+            Err(e) => t.fin = show_err_aiger(&e),
+        }
+        return;
+    }
     let mut r = next!(t, p.inputs());
     step!(t, stats, r.next_input(), |l: L| format!("i:{}", l.code()));
     let mut r = next!(t, r.latches());
@@ -323,6 +337,37 @@ fn run_aig<L: flussab_aiger::Lit>(s: &Setup, t: &mut Trace, stats: &Rc<RefCell<S
     if s.flags.contains('w') {
         match p.parse() {
             Ok(a) => { t.items.push(show_ordered_aig(&a)); t.calls_at_item.push(stats.borrow().effective_calls); t.fin = "ok".into(); }
+            Err(e) => t.fin = show_err_aiger(&e),
+        }
+        return;
+    }
+    if s.flags.contains('x') {
+        // whole-file API, then the crate's writers on the value: W:<hex binary::Writer::write_ordered_aig>,
+        // WS:<the same for the value with every gate's inputs exchanged>, WA:<hex ascii::Writer::write_ordered_aig>
+        match p.parse() {
+            Ok(a) => {
+                t.items.push(show_ordered_aig(&a)); t.calls_at_item.push(stats.borrow().effective_calls);
+                // the writer computes (input_count + 1) * 2 and `code += 2` per latch / gate in plain usize arithmetic:
+                // where that overflows (panic with overflow checks, wrap without) the case says so instead of calling it
+                // (flag 'X', implementation only: call the writer regardless, to show the panic)
+                let ovf = !s.flags.contains('X') && a.input_count.checked_add(1).and_then(|x| x.checked_add(a.latches.len()))
+                    .and_then(|x| x.checked_add(a.and_gates.len())).and_then(|x| x.checked_mul(2)).is_none();
+                t.items.push(if ovf { "W:OVF".to_string() } else { format!("W:{}", hex(&write_binary_aig_to_vec(&a))) });
+                t.calls_at_item.push(stats.borrow().effective_calls);
+                // the same value with the two inputs of every gate exchanged: write_and_gate puts them back in order
+                if !ovf {
+                    let mut b = a.clone();
+                    for g in b.and_gates.iter_mut() { g.inputs.swap(0, 1); }
+                    t.items.push(format!("WS:{}", hex(&write_binary_aig_to_vec(&b))));
+                    t.calls_at_item.push(stats.borrow().effective_calls);
+                }
+                // ascii::Writer::write_ordered_aig writes one line per input: only for small input counts
+                t.items.push(if a.input_count <= 4096 {
+                    format!("WA:{}", hex(&write_to_vec(|w| { flussab_aiger::ascii::Writer::<L>::new(w).write_ordered_aig(&a); })))
+                } else { "WA:-".to_string() });
+                t.calls_at_item.push(stats.borrow().effective_calls);
+                t.fin = "ok".into();
+            }
             Err(e) => t.fin = show_err_aiger(&e),
         }
         return;
@@ -907,6 +952,25 @@ fn rt_dimacs<L: flussab_cnf::Dimacs + std::fmt::Debug>(kind: &str, data: &[u8], 
         _ => return Err("bad kind".into()),
     }
     Ok(Some((items.join(";"), out)))
+}
+
+/// the bytes binary::Writer::write_ordered_aig writes (its constructor takes the DeferredWriter by value)
+fn write_binary_aig_to_vec<L: flussab_aiger::Lit>(a: &flussab_aiger::aig::OrderedAig<L>) -> Vec<u8> {
+    let out = Rc::new(RefCell::new(Vec::<u8>::new()));
+    struct Sink(Rc<RefCell<Vec<u8>>>);
+    impl std::io::Write for Sink {
+        fn write(&mut self, b: &[u8]) -> std::io::Result<usize> { self.0.borrow_mut().extend_from_slice(b); Ok(b.len()) }
+        fn flush(&mut self) -> std::io::Result<()> { Ok(()) }
+    }
+    {
+        let w = flussab::DeferredWriter::from_write(Sink(out.clone()));
+        let mut bw = flussab_aiger::binary::Writer::<L>::new(w);
+        bw.write_ordered_aig(a);
+        use std::io::Write;
+        bw.writer.flush().unwrap();
+    }
+    let v = out.borrow().clone();
+    v
 }
 
 fn rt_aag<L: flussab_aiger::Lit>(data: &[u8]) -> Result<Option<(String, Vec<u8>)>, String> {
